@@ -220,6 +220,11 @@ func (r *Report) Finish(evidenceDir string, findings []Finding, seed int, wall f
 	for _, ri := range r.Rules {
 		fmt.Printf("  %s: %d instances (floor %d)\n", ri.ID, ri.Count, ri.Floor)
 	}
+	if os.Getenv("NFS_VERBOSE") != "" {
+		for _, o := range r.Obls {
+			fmt.Printf("    %-10s %-10s %s  [%s] %s\n", o.Status, o.Rule, o.Construct, o.Pos, o.Why)
+		}
+	}
 	sort.Slice(knownHit, func(i, j int) bool { return knownHit[i].Construct < knownHit[j].Construct })
 	for _, o := range knownHit {
 		f := known[o.Rule+"|"+o.Construct]
